@@ -214,6 +214,10 @@ func play(c *vf.Case, kind zoo.Kind, optSeed *vf.Rand, ops []op, scribble bool) 
 			rr[i] = b.I.BindRemoteStream(zoo.Info(ro), rf[i])
 		}
 		synctest.Wait()
+		// all tickers of the interceptor fire at whole milliseconds after construction; the
+		// driver acts at x.5 ms so that "call before the tick" / "after the tick" is never a
+		// tie that the scheduler decides differently in run A and run B
+		time.Sleep(500 * time.Microsecond)
 
 		// run B storage, reused for every call
 		var shared rtp.Header
